@@ -44,7 +44,9 @@ Catalogue == <<
   F("w1", "Wildcard", "any",  NONE,    "opt",    FALSE, FALSE, 0),   \* 24
   F("w2", "Wildcard", "any",  NONE,    "list",   FALSE, FALSE, 0),   \* 25
   F("e6l", "Element", "str",  NONE,    "list",   TRUE,  FALSE, 0),   \* 26 nillable list
-  F("e5t", "Element", "qname", NONE,   "tokens", FALSE, FALSE, 0)    \* 27 QName tokens
+  F("e5t", "Element", "qname", NONE,   "tokens", FALSE, FALSE, 0),   \* 27 QName tokens
+  F("eG", "Element", "int",   NONE,    "list",   FALSE, FALSE, 2),   \* 28 sequence group 2
+  F("eH", "Element", "str",   NONE,    "list",   FALSE, FALSE, 2)    \* 29 sequence group 2
 >>
 
 VStr(s) == [t |-> "str", s |-> s]
